@@ -108,6 +108,7 @@ func mergeConfigDict(opts *options, to, from *Config) Error {
 	}
 
 	for k, v := range dict {
+		verifKeyOrder("mergeConfigDict", k)
 		ctx := context{
 			parent: cfgSub{to},
 			field:  k,
@@ -304,6 +305,7 @@ func normalizeMapInto(cfg *Config, opts *options, from reflect.Value) Error {
 	}
 
 	for _, k := range from.MapKeys() {
+		verifKeyOrderRV("normalizeMapInto", k)
 		k = chaseValueInterfaces(k)
 		if k.Kind() != reflect.String {
 			return raiseKeyInvalidTypeMerge(cfg, from.Type())
